@@ -59,6 +59,46 @@ class Env:
         x.w(0x1C, 0x3F)
         self.sim.advance(3 * MS)
 
+    def raw_chip(self, name):
+        c = Chip(self.sim, self.med, name)
+        r = Raw(self.sim, c)
+        for reg, val in ((0, 0x0E), (1, 0x3F), (2, 0x01), (3, 3), (4, 0x13), (5, 76), (6, 0x07), (0x1D, 0x05), (0x1C, 0x3F)):
+            r.w(reg, val)
+        return c, r
+
+    def inject_busy(self, frame, pipe, ack_addr, second_frame, delay_us):
+        """deliver `frame`, let a passive radio acknowledge the master's first hop on `ack_addr` (so the master goes on
+        to wait for the NETWORK_ACK of its routed reply) and have `second_frame` arrive on the master's pipe 0
+        `delay_us` later, i.e. while update() is still blocked in that wait"""
+        if not hasattr(self, "Y"):
+            self.Y, self.y = self.raw_chip("Y")
+            self.Z, self.z = self.raw_chip("Z")
+        z = self.z
+        z.ce(False)
+        z.w(0, 0x0F)
+        z.w(2, 0x02)
+        z.w(0x0B, *ack_addr)
+        z.x(0xE2)
+        z.ce(True)
+        y = self.y
+        self.nid = getattr(self, "nid", 0) + 1
+        second_frame = second_frame[:4] + struct.pack("<H", 30000 + self.nid) + second_frame[6:]
+        a0 = self.chip.pipe_addr(0)
+        y.ce(False)
+        y.w(7, 0x70)
+        y.x(0xE1)
+        y.w(0x0A, *a0)
+        y.w(0x10, *a0)
+        y.x(0xB0, *second_frame)
+        self.sim.advance(2 * MS)
+        self.sim.after(delay_us * US, lambda: self.Y.set_ce(True))
+        sent = self.inject(frame, pipe)
+        self.Y.set_ce(False)
+        self.z.ce(False)
+        for _ in range(3):
+            self.master.update()
+        return sent
+
     def inject(self, frame, pipe):
         # every injected frame gets its own frame id: two identical payloads with the same 2-bit PID would be
         # taken for a retransmission by the receiving radio and dropped
@@ -169,6 +209,33 @@ def run_case(case):
                         res.label("released-address-granted-again")
                 if not table_ok(res, after, "after-request"):
                     break
+            elif kind == "req_busy":
+                # a request relayed by a node two or more hops away; while the master waits for the NETWORK_ACK of its
+                # routed reply a direct request of another ID arrives
+                rid, via_addr, rid2 = ev[1], ev[2], ev[3]
+                if rid2 == rid or rid2 in before or netaddr.level(via_addr) < 2:
+                    continue
+                a1 = via_addr & 7
+                sent = env.inject_busy(rfrag.pack_header(via_addr, 0, 1, 195, rid), a1, netaddr.pipe_address(a1, 5),
+                                       rfrag.pack_header(0o4444, 0, 1, 195, rid2), ev[4])
+                after = dict(m.dhcp_dict)
+                res.nontrivial = True
+                res.label("request-during-network-ack-wait")
+                replies = [e for e in sent if len(e["pl"]) >= 10 and rfrag.unpack_header(e["pl"])[3] == 128
+                           and rfrag.unpack_header(e["pl"])[1] == via_addr]
+                if replies:
+                    addr = struct.unpack("<H", replies[0]["pl"][8:10])[0]
+                    if after.get(rid) != addr:
+                        holder = [i for i, a in after.items() if a == addr]
+                        res.fail("C16/table-disagrees-with-reply", "ID %d (via 0o%o) was answered with 0o%o but the table files that address under %s" % (
+                            rid, via_addr, addr, holder or "nobody"))
+                    if netaddr.parent(addr) != via_addr:
+                        res.fail("C16/granted-address-not-child-of-via/relayed-level%d" % netaddr.level(via_addr), "ID %d via 0o%o was given 0o%o" % (rid, via_addr, addr))
+                foreign = set(after) - set(before) - {rid, rid2}
+                if foreign:
+                    res.fail("C16/lease-for-an-id-that-never-asked", "IDs %s appeared in the table" % sorted(foreign))
+                if not table_ok(res, after, "after-request"):
+                    break
             elif kind in ("rel_msg", "rel_api"):
                 if not before:
                     continue
@@ -256,6 +323,13 @@ def _relay_sweep():
             yield {"prefill": [[7, via]] + full_parent(via, leave=leave), "events": [["req", 200, via], ["req", 200, via], ["req", 201, via]]}
 
 
+def _busy_sweep():
+    """the second request arrives 1..70 ms after the relayed one was delivered (the master waits up to route_timeout)"""
+    for via in (0o11, 0o32, 0o123, 0o445):
+        for delay in range(1000, 70001, 3000):
+            yield {"prefill": [[7, via]], "events": [["req_busy", 20, via, 21, delay], ["req", 22, None]]}
+
+
 def _strategy():
     from hypothesis import strategies as st
     rid = st.one_of(st.integers(1, 255), st.sampled_from([1, 2, 3, 254, 255]))
@@ -266,6 +340,7 @@ def _strategy():
         st.tuples(st.just("req"), rid, st.just("leased"), st.integers(0, 30)),
         st.tuples(st.just("req"), rid, st.sampled_from(valid)),
         st.tuples(st.just("rel_msg"), st.integers(0, 30)), st.tuples(st.just("rel_api"), st.integers(0, 30)),
+        st.tuples(st.just("req_busy"), rid, st.sampled_from([a for a in valid if netaddr.level(a) >= 2]), rid, st.integers(500, 80000)),
         st.tuples(st.just("save_load"), st.sampled_from(["json", "bin"]), st.just("fresh")),
         st.tuples(st.just("save_load"), st.sampled_from(["json", "bin"]), st.just("same"), st.integers(0, 30), rid),
     ).map(list)
@@ -286,6 +361,6 @@ def _persist_strategy():
 def parts(tier):
     if tier == "quick":
         return [Part("enum-events-depth3", "enum", _enum(3), exhaustive=True), Part("relay-sweep", "enum", _relay_sweep, exhaustive=True),
-                Part("generated", "gen", _strategy, n=1000), Part("persistence", "gen", _persist_strategy, n=150)]
+                Part("request-during-wait-sweep", "enum", _busy_sweep, exhaustive=True), Part("generated", "gen", _strategy, n=1000), Part("persistence", "gen", _persist_strategy, n=150)]
     return [Part("enum-events-depth4", "enum", _enum(4), exhaustive=True), Part("relay-sweep", "enum", _relay_sweep, exhaustive=True),
-            Part("generated", "gen", _strategy, n=50000), Part("persistence", "gen", _persist_strategy, n=5000)]
+            Part("request-during-wait-sweep", "enum", _busy_sweep, exhaustive=True), Part("generated", "gen", _strategy, n=50000), Part("persistence", "gen", _persist_strategy, n=5000)]
